@@ -61,6 +61,10 @@ def _grid(rng, dim, *, safe_peak=False, tier="quick"):
         dx_max = 0.9 / math.sqrt(max(shape))
         dx = float(10 ** rng.uniform(-2, math.log10(dx_max)))
         h = np.array([dx * float(rng.uniform(0.8, 1.0)) for _ in range(dim)])
+        if dim > 1 and rng.random() < 0.4:
+            # elongated cells (the finer axis resolves shorter waves than the coarser one's Nyquist limit)
+            a = int(rng.integers(dim))
+            h[a] = h[a] / float(rng.choice([2.0, 4.0, 8.0]))
     else:
         dx = float(10 ** rng.uniform(-2, 2))
         h = np.array([dx * float(rng.uniform(0.6, 1.6)) for _ in range(dim)])
@@ -125,6 +129,13 @@ def gen(rng, kind, tier):
                 "threshold": str(rng.choice(["0.5", "auto", "mean"])), "stretch": float(2.0 ** int(rng.integers(-4, 5))),
                 "scale": float(rng.choice([2.0, 0.125, 7.0])),
                 "roll": [int(rng.integers(-n, n + 1)) if p else 0 for n, p in zip(spec["shape"], spec["periodic"])]}
+    if kind == "count" and rng.random() < 0.3:
+        # droplets plus many single-cell specks, counted with a minimal radius that removes the specks
+        spec = _grid(rng, dim)
+        return {"grid": spec, "field": {"type": "speckled", "seed": int(rng.integers(1 << 30))},
+                "threshold": "0.5", "minimal_radius_cells": float(rng.choice([0.9, 1.2])),
+                "stretch": float(2.0 ** int(rng.integers(-4, 5))),
+                "scale": float(rng.choice([2.0, 0.125, 7.0])), "roll": [int(rng.integers(-n, n + 1)) for n in spec["shape"]]}
     if kind == "count":
         spec = _grid(rng, dim)
         return {"grid": spec, "field": {"type": "droplets", "seed": int(rng.integers(1 << 30))},
@@ -158,6 +169,25 @@ def make_data(spec, f):
             d2 = sum(np.minimum(np.abs(idx[a] + 0.5 - c[a]), shape[a] - np.abs(idx[a] + 0.5 - c[a])) ** 2 for a in range(len(shape)))
             data += 0.5 + 0.5 * np.tanh((rad - np.sqrt(d2)) / 0.8)
         return np.clip(data, 0, 1)
+    if t == "speckled":
+        data = np.zeros(shape)
+        for _ in range(int(r.integers(1, 3))):
+            c = [r.uniform(0, n) for n in shape]
+            rad = r.uniform(2.5, 4.0)
+            d2 = sum(np.minimum(np.abs(idx[a] + 0.5 - c[a]), shape[a] - np.abs(idx[a] + 0.5 - c[a])) ** 2 for a in range(len(shape)))
+            data = np.maximum(data, (np.sqrt(d2) < rad).astype(float))
+        # isolated single cells (no two adjacent, none touching a droplet), many of them in a row
+        from scipy import ndimage as _nd
+
+        blocked = _nd.binary_dilation(data > 0.5, iterations=2)
+        for flat in r.permutation(data.size)[: int(r.integers(6, 25))]:
+            ii = np.unravel_index(int(flat), shape)
+            if not blocked[ii]:
+                data[ii] = 1.0
+                mark = np.zeros(shape, bool)
+                mark[ii] = True
+                blocked |= _nd.binary_dilation(mark, iterations=2, structure=np.ones((3,) * len(shape)))
+        return data
     if t == "bars":
         data = np.zeros(shape)
         per = spec["periodic"]
@@ -295,6 +325,9 @@ def run(case, rec, *, ignore_known=False):
     if kind == "count":
         thr = case["threshold"]
         kw = {"threshold": float(thr) if thr[0].isdigit() else thr}
+        if case.get("minimal_radius_cells"):
+            # in units of the (geometric mean) cell size, so that single cells are removed and droplets kept
+            kw["minimal_radius"] = float(case["minimal_radius_cells"] * np.prod(h) ** (1 / dim))
         log: list = []
         with monitors.wrap_attr(ia, "locate_droplets", monitors.recording(log, "locate_droplets")):
             base = ls(rec, spec, data, "droplet_detection", **kw)
@@ -317,7 +350,10 @@ def run(case, rec, *, ignore_known=False):
         if n >= 1:
             rec.check(rel_same(l0, (vol / n) ** (1 / dim), 1e-12), "count",
                       f"droplet counting returned {l0}, but (box volume {vol} / {n} droplets)^(1/{dim}) = {(vol / n) ** (1 / dim)}; {label}")
-            s = ls(rec, stretched(spec, c), data, "droplet_detection", **kw)
+            kw_s = dict(kw)
+            if "minimal_radius" in kw_s:
+                kw_s["minimal_radius"] = kw["minimal_radius"] * c  # a length: it is stretched along with the grid
+            s = ls(rec, stretched(spec, c), data, "droplet_detection", **kw_s)
             rec.check(s.ok and rel_same(float(s.result), c * l0, 1e-10), "stretch",
                       f"droplet counting: stretching by {c} gives {s.result if s.ok else s.exc!r}, expected {c * l0}; {label}")
             # a component that winds around the box has no defined position (C02), so the overlap
